@@ -74,6 +74,8 @@ CMS_AOD_Q = [
     ("c_mu_first", [["Select", 'lambda e: e.Muons("muons").First().pt()']]),
     ("c_forkmuons", [["SelectMany", 'lambda e: e.ForkMuons("forked")'], ["Select", "lambda m: m.pt()"]]),
     ("c_mu_userfunc", [["SelectMany", 'lambda e: e.Muons("muons")'], ["Select", "lambda m: my_scale(m.pt(), 2.0)"]]),
+    ("c_mu_innertrack_hits", [["SelectMany", 'lambda e: e.Muons("muons")'],
+                              ["Select", "lambda m: m.innerTrack().hitPattern().numberOfValidHits()"]]),
     ("c_bad_slice", [["Select", 'lambda e: e.Muons("muons").Select(lambda m: m.pt())[0:2]']]),
     ("c_bad_raw", [["Select", 'lambda e: e.Muons("muons")']]),
     ("c_bad_method_on_double", [["SelectMany", 'lambda e: e.Muons("muons")'], ["Select", "lambda m: m.pt().eta()"]]),
@@ -93,6 +95,8 @@ CMS_MINI_Q = [
     ("m_mu_el_two", [["Select", 'lambda e: (e.Muons("slimmedMuons").Count(), e.Electrons("slimmedElectrons").Count())']]),
     ("m_mu_first", [["Select", 'lambda e: e.Muons("slimmedMuons").First().pt()']]),
     ("m_forkmuons", [["SelectMany", 'lambda e: e.ForkMuons("forked")'], ["Select", "lambda m: m.pt()"]]),
+    ("m_mu_besttrack_hits", [["SelectMany", 'lambda e: e.Muons("slimmedMuons")'],
+                             ["Select", "lambda m: m.bestTrack().hitPattern().numberOfValidHits()"]]),
     ("m_bad_slice", [["Select", 'lambda e: e.Muons("slimmedMuons").Select(lambda m: m.pt())[0:2]']]),
     ("m_bad_raw", [["Select", 'lambda e: e.Muons("slimmedMuons")']]),
 ]
@@ -141,6 +145,9 @@ METADATA = {
     "patmu_globaltrack_int": (_mt("pat::Muon", "globalTrack", return_type="int"), ["cms_miniaod"]),
     "patmu_pt_int": (_mt("pat::Muon", "pt", return_type="int"), ["cms_miniaod"]),
     "patel_iseb_double": (_mt("pat::Electron", "isEB", return_type="double"), ["cms_miniaod"]),
+    # methods whose return type carries *another* backend's default declarations
+    "patmu_besttrack_recotrack": (_mt("pat::Muon", "bestTrack", return_type="reco::Track*"), ["cms_miniaod"]),
+    "recomu_innertrack_trackref": (_mt("reco::Muon", "innerTrack", return_type="reco::TrackRef*"), ["cms_aod"]),
     "vertex_z_float": (_mt("reco::Vertex", "z", return_type="float"), ["cms_aod", "cms_miniaod"]),
     # enums
     "enum_color": ({"metadata_type": "define_enum", "namespace": "xAOD.Jet", "name": "Color", "values": ["Red", "Blue"]}, ["atlas"]),
@@ -197,6 +204,8 @@ NEEDS = {
     "a_forkjets": ["coll_forkjets"],
     "c_forkmuons": ["coll_forkmuons_aod"],
     "m_forkmuons": ["coll_forkmuons_mini"],
+    "m_mu_besttrack_hits": ["patmu_besttrack_recotrack"],
+    "c_mu_innertrack_hits": ["recomu_innertrack_trackref"],
 }
 
 
